@@ -16,9 +16,12 @@
    bodies - Template.String on a loaded template whose statements are those of the tree (up to
    lines) is what the semantics gives.  Every use is independent because the semantics is
    compositional: a use is a node with its own arguments and its own body.
-   Not a theorem: that the loader's per-use substitution (apply_component over ALL slots of a use)
-   produces those statements for every component file - the step theorems above describe one slot;
-   the example below discharges it by computation for one tree, the run for generated trees. *)
+   LOADER, ALL SLOTS OF ONE USE (Proofs/SlotFill.v): ApplyComponent puts every passed body into the
+   first top-level placeholder of its name, in the order written - the block attached to a use is,
+   up to lines, the component's tree with fill_slots applied; an undeclared slot makes the load
+   fail.  Not a theorem: the walk that attaches the blocks to ALL uses of a page at once
+   (rw_stmt over nested slot bodies); the example below discharges it by computation for one
+   page, the run for generated trees. *)
 From Coq Require Import String.
 From TW Require Import Bytes GenToken Lexer Ast Parser Values Builtins Eval Render Api Layouts.
 Open Scope N_scope.
@@ -183,3 +186,36 @@ Proof.
   split; [vm_compute; reflexivity|]. split; [cbn; repeat split; lia|].
   split; vm_compute; reflexivity.
 Qed.
+
+(* ---- the loader: all slots of one use *)
+From TW Require Import SlotFill.
+
+Theorem C07_all_slots_of_a_use_are_filled page_abs cline name slots sslots cprog cl C :
+  slots_match slots sslots ->
+  map strip_s (p_stmts cprog) = map strip_s (map cnode C) ->
+  find_duplicate_slot slots slots = None ->
+  match fill_slots C sslots with
+  | Some C' => exists ss, apply_component page_abs cline name slots cprog cl = Api.LOk ss /\
+                          map strip_s ss = map strip_s (map cnode C')
+  | None => exists e, apply_component page_abs cline name slots cprog cl = Api.LErr e
+  end.
+Proof. exact (apply_component_is_fill_slots page_abs cline name slots sslots cprog cl C). Qed.
+Print Assumptions C07_all_slots_of_a_use_are_filled.
+
+Theorem C07_one_use_gets_the_filled_tree fs cfg page_abs cid cline name slots sslots cp C C' :
+  parse_file fs (rel_of cfg name) = Api.LOk (PProg cp) ->
+  slots_match slots sslots ->
+  map strip_s (p_stmts cp) = map strip_s (map cnode C) ->
+  find_duplicate_slot slots slots = None ->
+  fill_slots C sslots = Some C' ->
+  exists ss, resolve_components fs cfg page_abs [(cid, cline, name, slots)] = Api.LOk [(cid, ss)] /\
+             map strip_s ss = map strip_s (map cnode C').
+Proof. exact (one_use_gets_the_filled_tree fs cfg page_abs cid cline name slots sslots cp C C'). Qed.
+Print Assumptions C07_one_use_gets_the_filled_tree.
+
+(* non-vacuity: the card of the example with the first use's default-slot body *)
+Example C07_fill_slots_example :
+  fill_slots (card7 None) [([], [NText (bs "<b>"); NPrint (XVar (bs "i")); NText (bs "</b>")])] =
+    Some (card7 (Some [NText (bs "<b>"); NPrint (XVar (bs "i")); NText (bs "</b>")])) /\
+  fill_slots (card7 None) [(bs "nosuch", [])] = None.
+Proof. split; reflexivity. Qed.
